@@ -59,6 +59,7 @@ type client struct {
 	tainted     string
 	tssCur      kit.Account // account currently authorised for a TSS client
 	installedAt time.Time
+	proofOK     bool // the proof at the installed height verified when the client was installed
 	updates     int
 }
 
@@ -113,7 +114,12 @@ func (w *world) history() string {
 	return b.String()
 }
 
-func (w *world) fail(t *rapid.T, format string, a ...interface{}) {
+// tb is what the oracle needs from *rapid.T / *testing.T.
+type tb interface {
+	Fatalf(format string, args ...interface{})
+}
+
+func (w *world) fail(t tb, format string, a ...interface{}) {
 	t.Fatalf("%s\nhistory:\n%s", fmt.Sprintf(format, a...), w.history())
 }
 
@@ -210,10 +216,10 @@ func lowestConsensus(kvs map[string][]byte, w *world) (clienttypes.Height, strin
 	if err != nil {
 		return h, "?", true
 	}
-	return h, fmt.Sprintf("%T", cons), true
+	return h, proto.MessageName(cons.(proto.Message)), true
 }
 
-func (w *world) assertUnchanged(t *rapid.T, before kit.Dump, what string) {
+func (w *world) assertUnchanged(t tb, before kit.Dump, what string) {
 	after := w.xibc()
 	if before.Digest() != after.Digest() {
 		w.fail(t, "%s changed the xibc store:\n%s", what, kit.DiffString(kit.Diff(before, after), 8))
@@ -270,7 +276,7 @@ func makeContent(action, name string, cs exported.ClientState, cons exported.Con
 // propose runs a proposal content the way a passed governance proposal runs: only contents that
 // pass ValidateBasic can be submitted at all; the handler runs in a cache context that is written
 // only when it returns nil.
-func (w *world) propose(t *rapid.T, content govtypes.Content) (res proposalResult) {
+func (w *world) propose(t tb, content govtypes.Content) (res proposalResult) {
 	if err := content.ValidateBasic(); err != nil {
 		return proposalResult{validateBasic: err}
 	}
@@ -308,12 +314,18 @@ func (w *world) nextHeader(t *rapid.T, cl *client) (h exported.Header, commit fu
 	in := cl.in
 	switch in.Typ {
 	case TM:
+		if last := in.tm.sim.Blocks[in.tm.sim.Last]; last.Time.Add(time.Second).After(w.c.Now) {
+			w.c.Commit(time.Minute) // the simulated chain caught up with the local clock: let a block pass
+		}
 		msg, b := in.tmNext(t, w.c.Now)
 		return msg, func() { in.tm.trusted = b.Height }, fmt.Sprintf("tm %d", b.Height)
 	case BSC:
 		nh := in.bsc.next(t)
 		return nh.ToProto(), func() { in.bsc.head = nh }, fmt.Sprintf("bsc %d", nh.Number)
 	case ETH:
+		if in.eth.head.Time+16 > uint64(w.c.Now.Unix()) {
+			w.c.Commit(time.Minute) // header times may not run more than 15 s ahead of the block time
+		}
 		nh := in.eth.next(t)
 		return ethsim.ToProto(nh), func() { in.eth.head = nh }, fmt.Sprintf("eth %d", nh.Number.Uint64())
 	case TSS:
@@ -395,7 +407,9 @@ func (w *world) malformed(t *rapid.T, cl *client) (exported.Header, string) {
 		}
 		msg := tmsim.Assemble(&hdr, commit, prev.NextVals, trusted, prev.NextVals)
 		if kind == "tampered-after-signing" {
-			msg.SignedHeader.Header.AppHash = rbytes(t, "tm_bad_apphash2", 32)
+			bad := append([]byte{}, msg.SignedHeader.Header.AppHash...)
+			bad[rapid.IntRange(0, len(bad)-1).Draw(t, "tm_tamper_byte")] ^= 0x01
+			msg.SignedHeader.Header.AppHash = bad
 		}
 		return msg, "tm:" + kind
 	case BSC:
@@ -558,7 +572,7 @@ type followResult struct {
 }
 
 // checkStored is clause B: the stored client state and the consensus state at the installed height are the proposal's.
-func (w *world) checkStored(t *rapid.T, cl *client, what string) {
+func (w *world) checkStored(t tb, cl *client, what string) {
 	in := cl.in
 	kvs := clientKVs(w.xibc(), cl.name)
 	cdc := w.c.App.AppCodec()
@@ -604,7 +618,7 @@ func protoEqual(a, b proto.Message) bool {
 	return bytes.Equal(x, y)
 }
 
-func (w *world) checkMeta(t *rapid.T, cl *client, bt time.Time, what string) {
+func (w *world) checkMeta(t tb, cl *client, bt time.Time, what string) {
 	kvs := clientKVs(w.xibc(), cl.name)
 	for _, m := range w.expectedMeta(cl.in, bt) {
 		got, ok := kvs[m.Key]
@@ -637,7 +651,7 @@ func (w *world) storedClientState(cl *client) exported.ClientState {
 	return cs
 }
 
-func (w *world) checkActive(t *rapid.T, cl *client, what string) {
+func (w *world) checkActive(t tb, cl *client, what string) {
 	ctx, _ := w.c.Ctx().CacheContext()
 	cs := w.storedClientState(cl)
 	st := cs.Status(ctx, w.c.App.XIBCKeeper.ClientKeeper.ClientStore(ctx, cl.name), w.c.App.AppCodec())
@@ -711,14 +725,12 @@ func (w *world) follow(t *rapid.T, cl *client, bt time.Time, what string, skip m
 	// the delay: block time for Tendermint, accepted headers for BSC / ETH, nothing for TSS
 	delayOK := true
 	if in.Typ == TM {
-		dt := time.Duration(in.tm.delay)
+		dt := time.Duration(in.tm.delay) // exactly the delay: "inclusive"
 		switch rapid.IntRange(0, 2).Draw(t, "delay_slack") {
 		case 1:
 			dt += time.Duration(rapid.IntRange(1, 5000).Draw(t, "delay_slack_ms")) * time.Millisecond
 		case 2:
-			if dt == 0 {
-				dt = 0 // same block as the proposal
-			}
+			dt += time.Nanosecond
 		}
 		if dt > 0 {
 			w.c.Commit(dt)
